@@ -147,7 +147,25 @@ def describe(f):
         allh.append(h)
         if names:
             shapes.append([h, names])
-    return {"locals": sorted(locs), "shapes": shapes, "all": allh}
+    ps = param_names(f)
+    allp = []
+    both = locs | set(ps)
+    for p in _pieces(f):
+        h, _ = piece_shape(p, both)
+        if h is not None:
+            allp.append(h)
+    return {"locals": sorted(locs), "shapes": shapes, "all": allh, "params": ps, "allp": allp}
+
+
+def param_names(f) -> list:
+    a = f.args
+    out = [x.arg for x in a.posonlyargs + a.args]
+    if a.vararg:
+        out.append("*" + a.vararg.arg)
+    out += [x.arg for x in a.kwonlyargs]
+    if a.kwarg:
+        out.append("**" + a.kwarg.arg)
+    return out
 
 
 def edit_distance_to_reference(modname, qual, f):
@@ -229,12 +247,152 @@ def table():
     return _TABLE
 
 
+def _functions(tree):
+    out = {}
+
+    def rec(node, prefix):
+        for st in ast.iter_child_nodes(node):
+            if isinstance(st, (ast.FunctionDef, ast.AsyncFunctionDef)):
+                q = f"{prefix}{st.name}"
+                out[q] = st
+                rec(st, q + ".")
+            elif isinstance(st, ast.ClassDef):
+                rec(st, f"{prefix}{st.name}.")
+            elif isinstance(st, (ast.If, ast.Try, ast.For, ast.While, ast.With)):
+                rec(st, prefix)
+    rec(tree, "")
+    return out
+
+
+def _is_private(qual, funcs) -> bool:
+    """a helper that callers cannot address by keyword from outside: leading underscore (not dunder) or nested in a function"""
+    base = qual.rsplit(".", 1)[-1]
+    if base.startswith("_") and not (base.startswith("__") and base.endswith("__")):
+        return True
+    parent = qual.rsplit(".", 1)[0] if "." in qual else None
+    return parent in funcs if parent else False
+
+
+def _overlap(a, b) -> float:
+    from collections import Counter
+    ca, cb = Counter(a), Counter(b)
+    inter = sum((ca & cb).values())
+    return inter / max(1, max(sum(ca.values()), sum(cb.values())))
+
+
+def _rename_params(f, ref_entry, tree, base_name) -> dict:
+    """positional translation of renamed parameters of a private function; keyword call sites in the module follow"""
+    cur = param_names(f)
+    old = ref_entry.get("params", [])
+    if cur == old or len(cur) != len(old):
+        return {}
+    cur_all = set(x.lstrip("*") for x in cur) | function_locals(f)
+    ref_all = set(x.lstrip("*") for x in old) | set(ref_entry["locals"])
+    mapping = {}
+    for c, r in zip(cur, old):
+        c0, r0 = c.lstrip("*"), r.lstrip("*")
+        if c0 == r0:
+            continue
+        if c.count("*") != r.count("*") or c0 in ref_all or r0 in cur_all:
+            return {}
+        mapping[c0] = r0
+    if not mapping:
+        return {}
+    a = f.args
+    for x in a.posonlyargs + a.args + a.kwonlyargs + ([a.vararg] if a.vararg else []) + ([a.kwarg] if a.kwarg else []):
+        if x.arg in mapping:
+            x.arg = mapping[x.arg]
+    for node in ast.walk(f):
+        if isinstance(node, ast.Name) and node.id in mapping:
+            node.id = mapping[node.id]
+    for node in ast.walk(tree):
+        if isinstance(node, ast.Call):
+            fn = node.func
+            nm = fn.id if isinstance(fn, ast.Name) else fn.attr if isinstance(fn, ast.Attribute) else None
+            if nm == base_name:
+                for k in node.keywords:
+                    if k.arg in mapping:
+                        k.arg = mapping[k.arg]
+    return mapping
+
+
+def normalise_functions(modname, tree) -> list:
+    """Translate renamed private functions (and their parameters) back to the reference names. A function of the reference that no
+    longer exists is paired with a function the reference does not know when both sit in the same scope, take the same number of
+    parameters and share most statement shapes once parameters and locals are abstracted; the pairing must be the unique best on
+    both sides. References inside the module (names and attributes) follow. Returns [(new name, reference name)]."""
+    ref = table().get(modname)
+    if not ref:
+        return []
+    done = []
+    for _ in range(3):
+        funcs = _functions(tree)
+        missing = [q for q in ref if q not in funcs and "allp" in ref[q]]
+        fresh = [q for q in funcs if q not in ref]
+        pairs = []
+        if missing and fresh:
+            desc = {q: describe(funcs[q]) for q in fresh}
+            scores = []
+            for mq in missing:
+                for fq in fresh:
+                    if mq.rsplit(".", 1)[0:-1] != fq.rsplit(".", 1)[0:-1]:
+                        continue
+                    if len(ref[mq].get("params", [])) != len(desc[fq]["params"]):
+                        continue
+                    if not ref[mq]["allp"] and not desc[fq]["allp"]:
+                        continue
+                    sc = _overlap(ref[mq]["allp"], desc[fq]["allp"])
+                    if sc >= 0.6:
+                        scores.append((sc, mq, fq))
+            scores.sort(reverse=True)
+            used_m, used_f = set(), set()
+            for sc, mq, fq in scores:
+                if mq in used_m or fq in used_f:
+                    continue
+                # unique best on both sides
+                rivals = [x for x in scores if (x[1] == mq) != (x[2] == fq) and x[0] >= sc - 1e-9]
+                if rivals:
+                    continue
+                used_m.add(mq); used_f.add(fq)
+                pairs.append((mq, fq))
+        changed = False
+        name_map = {}
+        for mq, fq in pairs:
+            new_base, ref_base = fq.rsplit(".", 1)[-1], mq.rsplit(".", 1)[-1]
+            if new_base == ref_base:
+                continue
+            if not _is_private(fq, funcs) or any(q.rsplit(".", 1)[-1] == new_base for q in ref):
+                continue                 # public API, or the "new" name also names something the reference knows: leave alone
+            funcs[fq].name = ref_base
+            name_map[new_base] = ref_base
+            done.append((fq, mq))
+            changed = True
+        if name_map:
+            for node in ast.walk(tree):
+                if isinstance(node, ast.Name) and node.id in name_map:
+                    node.id = name_map[node.id]
+                elif isinstance(node, ast.Attribute) and node.attr in name_map:
+                    node.attr = name_map[node.attr]
+        # parameters of private functions known (now) under their reference names
+        funcs = _functions(tree)
+        for q, f in funcs.items():
+            if q in ref and _is_private(q, funcs) and "params" in ref[q] and param_names(f) != ref[q]["params"]:
+                if _overlap(ref[q].get("allp", []), describe(f)["allp"]) >= 0.5 or not ref[q].get("allp"):
+                    m = _rename_params(f, ref[q], tree, q.rsplit(".", 1)[-1])
+                    if m:
+                        done.append((f"{q}(params)", m))
+                        changed = True
+        if not changed:
+            break
+    return done
+
+
 def normalise_module(modname, tree) -> list:
     """Translate renamed locals in every function of the module that the reference knows. Returns [(qualname, mapping)]."""
     ref = table().get(modname)
     if not ref:
         return []
-    done = []
+    done = list(normalise_functions(modname, tree))
 
     def rec(node, prefix):
         for st in ast.iter_child_nodes(node):
